@@ -1067,7 +1067,7 @@ class FieldDomain:
         """
         key = self.construct_key(*identity, default=None, **filter_kwargs)
         if key is not None:
-            return self.constructs._del_construct(key)
+            return super().del_construct(key)
 
         if default is None:
             return default
